@@ -279,10 +279,10 @@ func (its *PushPullHandler) pullOperations() errors.OrdaError {
 }
 
 func (its *PushPullHandler) pushOperations() errors.OrdaError {
+	its.currentCP.Sseq = its.datatypeDoc.Sseq.End
 	if its.isReadOnly {
 		return nil
 	}
-	its.currentCP.Sseq = its.datatypeDoc.Sseq.End
 	for _, op := range its.gotPushPullPack.Operations {
 		switch {
 		case its.currentCP.Cseq+1 == op.ID.GetSeq():
